@@ -16,13 +16,16 @@ theorem DiskOK.last {cfg : Cfg} {d : Disk} {must issued : List Grp} (hd : DiskOK
 /-- facts about the groups of a journal file that the last view still replays -/
 theorem rel_file_facts {cfg : Cfg} {d : Disk} {must issued : List Grp} (hd : DiskOK cfg d must issued)
     {v : MView} (hv : lastView cfg d = some v) {p : Nat × LogFile Grp} (hp : p ∈ d.journals) (hjn : v.jn ≤ p.1) :
-    AscFrom 0 p.2.all ∧ (∀ g ∈ p.2.all, g ∈ issued ∧ v.sq ≤ g.seq) ∧
-    (∀ h ∈ liveGrps d v, ∀ g ∈ p.2.all, h.fin ≤ g.seq) := by
+    AscFrom 0 p.2.all ∧ (∀ g ∈ p.2.all, g ∈ issued ∧ (v.sq ≤ g.seq ∨ g ∉ must)) ∧
+    (∀ h ∈ liveGrps d v, ∀ g ∈ p.2.all, Disj h g) ∧
+    (∀ q ∈ d.journals, p.1 < q.1 → ∀ g ∈ p.2.all, ∀ g' ∈ q.2.all, g.fin ≤ g'.seq) := by
   obtain ⟨mf, v0, v', hparts, hlv, _, hok, hmono⟩ := hd.last
   rw [hv] at hlv
   cases hlv
   have hpr : p ∈ relJournals d v.jn := mem_relJournals.2 ⟨hp, hjn⟩
-  refine ⟨hparts.jasc p (relJournals_mono hmono hpr), fun g hg => ?_, fun h hh g hg => hok.tj h hh p hpr g hg⟩
+  refine ⟨hparts.jasc p (relJournals_mono hmono hpr), fun g hg => ?_, fun h hh g hg => hok.tj h hh p hpr g hg,
+    fun q hq hlt => hparts.jord p (relJournals_mono hmono hpr) q
+      (mem_relJournals.2 ⟨hq, by have := (mem_relJournals.1 (relJournals_mono hmono hpr)).2; omega⟩) hlt⟩
   obtain ⟨a, b⟩ := hok.jseq p hpr g hg
   exact ⟨b, a⟩
 
@@ -51,7 +54,7 @@ theorem Inv.editOK_flush {cfg : Cfg} {s : St} {d : Disk} (h : Inv cfg s d) {j : 
   have hcur := hparts.cur
   have hog : outsGrps j = fz := by simp [outsGrps, houts]
   obtain ⟨h5a, _, _, _⟩ := f5 pf hpf hpfn
-  obtain ⟨hasc, hiss, hlive⟩ := rel_file_facts h.disk hv hpf (by rw [hpfn]; exact hvjn)
+  obtain ⟨hasc, hiss, hlive, _⟩ := rel_file_facts h.disk hv hpf (by rw [hpfn]; exact hvjn)
   refine ⟨v, hv, ?_⟩
   have hjn0 : e.jn.getD v.jn = s.jcur := by rw [hejn]; rfl
   have hsq0 : e.sq.getD v.sq = s.frozenSeq := by rw [hesq]; rfl
@@ -80,21 +83,19 @@ theorem Inv.editOK_flush {cfg : Cfg} {s : St} {d : Disk} (h : Inv cfg s d) {j : 
   · rw [hsq0, hog]
     intro g hg
     have hgp := h5a g hg
-    refine ⟨f3 g hg, (hiss g hgp).1, hasc.recs_ne hgp, fun x hx => Or.inr (Or.inr (hlive x hx g hgp)),
+    refine ⟨f3 g hg, (hiss g hgp).1, hasc.recs_ne hgp, fun x hx => (hlive x hx g hgp).symm,
       fun x hx => hasc.disj hgp (h5a x hx)⟩
   · rw [hjn0, hsq0, hog]
     intro p hp hge g hg
-    have hpe : p.1 = s.jcur := Nat.le_antisymm (hrun.jmax p hp) hge
-    have := f4 p hp hpe g hg
-    refine ⟨Nat.le_of_lt this, fun x hx => ?_⟩
-    have := f3 x hx
-    omega
+    rcases hrun.jmax.2 p hp with hle | hemp
+    · have hpe : p.1 = s.jcur := Nat.le_antisymm hle hge
+      have := f4 p hp hpe g hg
+      refine ⟨Or.inl (Nat.le_of_lt this), fun x hx => Or.inr (Or.inl ?_)⟩
+      have := f3 x hx
+      omega
+    · rw [hemp] at hg; cases hg
   · rw [hjn0, hsq0, hcap]
-    have hjl : s.jcur < s.nextFile := by
-      have hl := hrun.jcur
-      rw [holds_iff] at hl
-      obtain ⟨jf', hjf', _⟩ := hl
-      exact hrun.nums.1 _ (lookup_some_mem hjf')
+    have hjl : s.jcur < s.nextFile := hrun.jmax.1
     exact ⟨hbv.2.2 hph, hvsq, f2, fun _ => Nat.le_refl _, hjl⟩
   · intro o ho
     have hf := hok.fresh
@@ -149,12 +150,15 @@ theorem Inv.editOK_recovMid {cfg : Cfg} {s : St} {d : Disk} (h : Inv cfg s d) {j
   rw [hv] at hrel
   have hrel : ∀ p ∈ d.journals, v.jn ≤ p.1 → p.1 ∈ r.todo ∨ some p.1 = r.ofd ∨ p.2.all = [] := hrel.1
   have hog := outsGrps_mdb houts
-  have hmf : ∀ g ∈ r.mdb, g ∈ issuedGrps s ∧ g.recs ≠ [] ∧ (∀ x ∈ liveGrps d v, x.fin ≤ g.seq) ∧
-      ∀ x ∈ r.mdb, Disj g x := by
-    rcases m3 hnc with ⟨pf, hpf, hpfn⟩ | hemp
-    · obtain ⟨hasc, hiss, hlive⟩ := rel_file_facts h.disk hv hpf (by rw [hpfn]; exact hvjo)
-      rw [m1 pf hpf hpfn] at hasc hiss hlive
-      exact fun g hg => ⟨(hiss g hg).1, hasc.recs_ne hg, fun x hx => hlive x hx g hg, fun x hx => hasc.disj hg hx⟩
+  have hmf : ∀ g ∈ r.mdb, g ∈ issuedGrps s ∧ g.recs ≠ [] ∧ (∀ x ∈ liveGrps d v, Disj g x) ∧
+      (∀ x ∈ r.mdb, Disj g x) ∧
+      ∀ q ∈ d.journals, o < q.1 → ∀ g' ∈ q.2.all, g.fin ≤ g'.seq := by
+    rcases (m3 hnc).1 with ⟨pf, hpf, hpfn⟩ | hemp
+    · obtain ⟨hasc, hiss, hlive, hord⟩ := rel_file_facts h.disk hv hpf (by rw [hpfn]; exact hvjo)
+      have hsub := (m1 pf hpf hpfn).1
+      exact fun g hg => ⟨(hiss g (hsub g hg)).1, hasc.recs_ne (hsub g hg), fun x hx => (hlive x hx g (hsub g hg)).symm,
+        fun x hx => hasc.disj (hsub g hg) (hsub x hx),
+        fun q hq hlt g' hg' => hord q hq (by rw [hpfn]; exact hlt) g (hsub g hg) g' hg'⟩
     · rw [hemp]; intro g hg; cases hg
   have hjn0 : e.jn.getD v.jn = n := by rw [hejn]; rfl
   have hsq0 : e.sq.getD v.sq = s.seq := by rw [hesq]; rfl
@@ -190,20 +194,19 @@ theorem Inv.editOK_recovMid {cfg : Cfg} {s : St} {d : Disk} (h : Inv cfg s d) {j
     · have := hnmin p.1 h3; omega
     · rw [ho] at h3
       cases h3
-      rw [m1 p hp rfl] at hg
-      exact fun _ => hg
+      intro hgm
+      exact ((m1 p hp rfl).2 g hg).resolve_right (fun x => x hgm)
     · rw [h3] at hg; cases hg
   · rw [hsq0, hog]
     intro g hg
-    obtain ⟨a, b, c, e'⟩ := hmf g hg
-    exact ⟨by have := m2 g hg; omega, a, b, fun x hx => Or.inr (Or.inr (c x hx)), e'⟩
+    obtain ⟨a, b, c, e', _⟩ := hmf g hg
+    exact ⟨by have := m2 g hg; omega, a, b, c, e'⟩
   · rw [hjn0, hsq0, hog]
     intro p hp hge g hg
     rcases hrel p hp (by omega) with h3 | h3 | h3
     · have := hrec.todoSeq p hp h3 g hg
-      refine ⟨this, fun x hx => ?_⟩
-      have := m2 x hx
-      omega
+      refine ⟨this, fun x hx => Or.inr (Or.inl ?_)⟩
+      exact (hmf x hx).2.2.2.2 p hp (by omega) g hg
     · rw [ho] at h3; cases h3; omega
     · rw [h3] at hg; cases hg
   · rw [hjn0, hsq0, hcap]
@@ -277,8 +280,8 @@ theorem Inv.editOK_recovFinal {cfg : Cfg} {s : St} {d : Disk} (h : Inv cfg s d) 
         rw [ho] at h3 hmdb
         cases h3
         simp only at hmdb
-        rw [hmdb.1 p hp rfl] at hg
-        exact fun _ => hg
+        intro hgm
+        exact ((hmdb.1 p hp rfl).2 g hg).resolve_right (fun x => x hgm)
     · rw [h3] at hg; cases hg
   · rw [hsq0, hog]
     intro g hg
@@ -288,16 +291,16 @@ theorem Inv.editOK_recovFinal {cfg : Cfg} {s : St} {d : Disk} (h : Inv cfg s d) 
       rw [ho] at hmdb
       simp only at hmdb
       obtain ⟨m1, m2, m3⟩ := hmdb
-      rcases m3 hnc with ⟨pf, hpf, hpfn⟩ | hemp
+      rcases (m3 hnc).1 with ⟨pf, hpf, hpfn⟩ | hemp
       · have hview := hrec.view hnc
         unfold Settled at hview
         have hview := (holds_some hview hcur).2
         rw [hv] at hview
         obtain ⟨_, hvo⟩ : Mirror s v ∧ ∀ o, r.ofd = some o → v.jn ≤ o := hview
-        obtain ⟨hasc, hiss, hlive⟩ := rel_file_facts h.disk hv hpf (by rw [hpfn]; exact hvo o ho)
-        rw [m1 pf hpf hpfn] at hasc hiss hlive
-        exact ⟨by have := m2 g hg; omega, (hiss g hg).1, hasc.recs_ne hg,
-          fun x hx => Or.inr (Or.inr (hlive x hx g hg)), fun x hx => hasc.disj hg hx⟩
+        obtain ⟨hasc, hiss, hlive, _⟩ := rel_file_facts h.disk hv hpf (by rw [hpfn]; exact hvo o ho)
+        have hsub := (m1 pf hpf hpfn).1
+        exact ⟨by have := m2 g hg; omega, (hiss g (hsub g hg)).1, hasc.recs_ne (hsub g hg),
+          fun x hx => (hlive x hx g (hsub g hg)).symm, fun x hx => hasc.disj (hsub g hg) (hsub x hx)⟩
       · rw [hemp] at hg; cases hg
   · rw [hjn0, hsq0, hog]
     intro p hp hge g hg
@@ -419,9 +422,9 @@ theorem Inv.editOK_tr {cfg : Cfg} {s : St} {d : Disk} (h : Inv cfg s d) {j : Job
   have hjn0 : e.jn.getD v.jn = v.jn := by rw [hejn]; rfl
   have hsq0 : e.sq.getD v.sq = g.fin - 1 := by rw [hesq]; rfl
   have hog : outsGrps j = [g] := by simp [outsGrps, houts]
-  -- every journal the last view would replay is empty
-  have hempty : ∀ p ∈ d.journals, v.jn ≤ p.1 → p.2.all = [] := by
-    intro p hp hge
+  -- every journal the last view would replay holds at most records of failed writes, below the transaction
+  have hstale : ∀ p ∈ d.journals, v.jn ≤ p.1 → ∀ x ∈ p.2.all, x ∉ must s ∧ x.fin ≤ s.seq + 1 := by
+    intro p hp hge x hx
     have r1 := holds_some hrun.rel hcur
     have r2 := holds_some r1 hparts.hv0
     rcases r2 p hp (Nat.le_trans hmono hge) with h3 | h3 | h3
@@ -431,11 +434,17 @@ theorem Inv.editOK_tr {cfg : Cfg} {s : St} {d : Disk} (h : Inv cfg s d) {j : Job
       have : lookup d.journals p.1 = some p.2 := lookup_of_mem (sorted_nodup h.disk.jsorted) (by cases p; exact hp)
       rw [h3, hjf] at this
       cases this
-      exact hall.2.2.2.1 (by rw [hg]; rfl)
+      rw [hmem, hw] at hall
+      refine ⟨fun hxm => ?_, ?_⟩
+      · have := hall.2.1 x hx hxm
+        simp [inflight] at this
+      · rcases hall.2.2.1 x hx with h4 | h4
+        · simp [inflight] at h4
+        · exact h4
     · rcases frozenOK_iff.1 hrun.frozen with ⟨_, h4⟩ | ⟨fz, jf, h4, _⟩
       · rw [h4] at h3; cases h3
       · rw [hfz] at h4; cases h4
-    · exact h3.2.1 (by rw [hg]; rfl)
+    · exact h3.1 x hx
   have hin := hok.inputs
   rw [he] at hin
   have hin : InputsOK s d j e := hin
@@ -459,8 +468,12 @@ theorem Inv.editOK_tr {cfg : Cfg} {s : St} {d : Disk} (h : Inv cfg s d) {j : Job
       exact Or.inl hy.symm
   · rw [hjn0]
     intro p hp hge x hx
-    rw [hempty p hp hge] at hx
-    cases hx
+    obtain ⟨a, b⟩ := hstale p hp hge x hx
+    rw [hog]
+    refine ⟨Or.inr a, fun y hy => ?_⟩
+    simp only [List.mem_singleton] at hy
+    subst hy
+    exact Or.inr (Or.inr (by omega))
   · rw [hjn0, hsq0, hcap]
     have := hvok.jnf
     exact ⟨Nat.le_refl _, by omega, Nat.le_refl _, hbv.2.2, by omega⟩
